@@ -153,6 +153,8 @@ def cases(tier, seed):
                     out.append(dict(kind="hmc", pot=pot, mass=mass, eps=eps, L=L))
     for mass in ("unit", "diag"):
         out.append(dict(kind="momentum", mass=mass))
+        for cls in ("HMCChain", "NUTSChain"):
+            out.append(dict(kind="sampler-momentum", mass=mass, cls=cls))
     # NUTS: one case per (orbit, start index); the orbit identity is checked in finish()
     orbits = []
     D1 = [("quartic", "unit", 0.6, (0.3, 1.1)), ("quad", "diag", 1.1, (0.8, -0.4)), ("cos", "unit", 1.1, (0.2, 1.4)),
@@ -229,6 +231,55 @@ def run(case):
             return bad("momentum refresh is not N(0, M): L L^T = %s, M = %s" % ((L @ L.T).tolist(), M.tolist()),
                        finding_key="momentum-refresh")
         return ok(outcome="momentum-exact")
+    if kind == "sampler-momentum":
+        # the sampler classes must refresh the momentum from N(0, M) with the SAME mass matrix M = 1/inverse_mass
+        # that their kinetic energy / leapfrog use (scripted RNG: exact covariance, no chain is sampled)
+        from vf import rngseam
+        import nifty.re.hmc_oo as oo
+        invm = jnp.array([1.0, 1.0]) if case["mass"] == "unit" else jnp.array([0.5, 2.0])
+        V2 = lambda q: 0.5 * jnp.sum(q ** 2)   # noqa
+        pos = jnp.array([0.3, -0.2])
+        if case["cls"] == "HMCChain":
+            smp = oo.HMCChain(V2, invm, pos, num_steps=1, step_size=0.1)
+        else:
+            smp = oo.NUTSChain(V2, invm, pos, step_size=0.1, max_tree_depth=1)
+        captured = {}
+        if case["cls"] == "NUTSChain":
+            orig = oo.generate_nuts_tree
+
+            def spy(**kw):
+                captured["qp"] = kw["initial_qp"]
+                return orig(**kw)
+            oo.generate_nuts_tree = spy
+        else:
+            orig = oo.generate_hmc_acc_rej
+
+            def spy(**kw):
+                captured["qp"] = kw["initial_qp"]
+                return orig(**kw)
+            oo.generate_hmc_acc_rej = spy
+        try:
+            def fn():
+                with patched_hmc(lambda p: True):
+                    smp.sample_next_state(jax.random.PRNGKey(0), pos)
+                return captured["qp"].momentum
+            off, L, n, resid = rngseam.linear_map(fn, lambda x: np.asarray(x), ctx=rngseam.scripted_re)
+        finally:
+            if case["cls"] == "NUTSChain":
+                oo.generate_nuts_tree = orig
+            else:
+                oo.generate_hmc_acc_rej = orig
+        M = np.diag(1.0 / np.asarray(invm))
+        # the kinetic energy the sampler itself uses must be p^T M^-1 p / 2
+        p = jnp.array([0.7, -1.3])
+        ke = float(smp.kinetic_energy(smp.inverse_mass_matrix, p))
+        ke_ref = float(0.5 * np.sum(np.asarray(invm) * np.asarray(p) ** 2))
+        if abs(ke - ke_ref) > 1e-12:
+            return bad("%s kinetic energy is not p^T M^-1 p / 2" % case["cls"], finding_key="sampler-kinetic|%s" % case["cls"])
+        if n != 2 or np.abs(off).max() > 0 or resid > 1e-12 or np.abs(L @ L.T - M).max() > 1e-12:
+            return bad("%s refreshes the momentum with covariance %s but its dynamics use the mass matrix M = %s"
+                       % (case["cls"], (L @ L.T).tolist(), M.tolist()), finding_key="sampler-momentum-refresh|%s" % case["cls"])
+        return ok(nontrivial=case["mass"] != "unit", outcome="sampler-momentum-exact")
     V, d, invm, kinetic, stepper, H = setup(case["pot"], case["mass"])
     eps = case["eps"]
     if kind == "leapfrog":
